@@ -89,7 +89,7 @@ def extract_fragment(text, anchor, what, body_only=False, occurrence=0, trailing
         raise Drift('fragment anchor for %s not found: %s' % (what, anchor))
     m = ms[occurrence]
     # first '{' at paren depth 0 after the anchor
-    i = m.end()
+    i = m.start()       # scan from the start of the anchor so anchors may end inside the parameter list
     depth = 0
     while i < len(text):
         j = strip_scan(text, i)
